@@ -358,8 +358,8 @@ def _large(draw):
 def subs(tier: str):
     q = tier == "quick"
     out = [
-        Sub("datasets", check, "hypothesis", strategy=lambda: _case(6 if q else 8, 8 if q else 12), examples=50 if q else 800),
-        Sub("collections", check_collection, "hypothesis", strategy=_collection, examples=12 if q else 200),
-        Sub("large", check, "hypothesis", strategy=_large, examples=1 if q else 12),
+        Sub("datasets", check, "hypothesis", strategy=lambda: _case(6 if q else 8, 8 if q else 12), examples=50 if q else 4000),
+        Sub("collections", check_collection, "hypothesis", strategy=_collection, examples=12 if q else 1000),
+        Sub("large", check, "hypothesis", strategy=_large, examples=1 if q else 40),
     ]
     return out
